@@ -18,6 +18,7 @@ RULE = ('case = one accepted generated document and a history of 1..12 (thorough
         'string and mapping views, raw node properties, custom getters; all of them read once before the first edit so that whatever the '
         'library caches is cached; decimals compared as numbers, nodes by digest; attribution, spacing and indent_by excluded). Non-trivial = the step '
         'changed a visible token; distinct = hash(text, op-log prefix).')
+RULE += (" Also (round 8): header-string sequences (2..4 assignments of None / '' / text to payee and narration of one transaction, compared after each).")
 ASSUMPTIONS = ['comment lines are compared as a sequence (adjacent comments of one indentation class re-lex as one token)',
                'indent_by, zero-width tokens and comment attribution are not part of the digest']
 
